@@ -44,7 +44,7 @@ def plan(tier):
                 "error) evaluated in every state; state = (len, bytes) of every device",
         "bounds": {"layouts": len(ls), "window_bytes": WIN, "addresses": "BASE-8 .. BASE+%d" % (WIN + 8),
                    "sizes": list(SIZES), "depth": depth,
-                   "depth3": "thorough: depth 3 with the event menu restricted to addresses within 4 bytes of a "
+                   "read_write_read": "every (read X, write Y near X, re-read at X with every size) history, no state merging; thorough re-reads every address overlapping Y", "depth3": "thorough: depth 3 with the event menu restricted to addresses within 4 bytes of a "
                              "device boundary and sizes {1,4,8}"},
         "exhaustive": True,
         "assumptions": ["bytes of a device written by an access that runs past the device end are don't-care "
@@ -214,6 +214,27 @@ def run_shard(arg):
                     res.add_state(hash((idx, k)))
                     nxt.append(hist + (ev,))
         frontier = nxt
+    # read / write / read histories: reads do not change the modelled state, so the BFS above never extends a history
+    # with one - a hidden read-side cache would go unnoticed.  Enumerate every (read X, write Y overlapping X's
+    # neighbourhood, re-read at X) history explicitly, without state merging.
+    reads = [e for e in events if e[0] == "r"]
+    writes = [e for e in events if e[0] == "w"]
+    for y in writes:
+        for x in reads:
+            if not (y[1] - 8 <= x[1] < y[1] + y[2] + 8):
+                continue
+            hub, model = build(layout)
+            res.cases += 1
+            h = (x, y)
+            if not apply(hub, model, x, 0, res, layout, ()):
+                continue
+            if not apply(hub, model, y, 1, res, layout, (x,)):
+                continue
+            finals = [("r", x[1], s) for s in SIZES] if tier == "quick" else \
+                [("r", a, s) for s in SIZES for a in range(y[1] - 7, y[1] + y[2] + 1)]
+            for z in finals:
+                if not apply(hub, model, z, 2, res, layout, h):
+                    break
     res.sample({"layout": layout, "states": len(seen), "example_history": [list(e) for e in (frontier[0] if frontier else ())]})
     return res.as_dict()
 
